@@ -22,6 +22,13 @@
 //	case  re-spelling the struct-field keys never changes the LoadFromJsonBytes result
 //	std   family B: mapping.UnmarshalJsonBytes and encoding/json both accept => DeepEqual values
 //	env   conf.Load expands ${VAR}/$VAR only under conf.UseEnv() (files under /verif/.work)
+//	entry named types with Validate methods (entry.go): every public entry point of core/conf
+//	      (bytes loaders, deprecated aliases, Load / LoadConfig / MustLoad on .json .yaml .yml .toml
+//	      files with and without UseEnv) gives the same verdict and deeply equal values
+//
+// Map keys are user data; they are drawn from plain keys AND from the field names of the element
+// struct, of the field itself and of its siblings (lower / declared / UPPER / sWAPPED case): the
+// oracles demand only that all formats and all spellings of the STRUCT-FIELD keys treat them alike.
 //
 // Each failing pair is shrunk (shrink.go) to the smallest type/document that fails the same way;
 // the class key is <check>:<signature>:<shape of the shrunk case>.
@@ -77,6 +84,14 @@ func texts(c *Case) any {
 	if c.Check == "env" {
 		return map[string]string{"file" + c.Env.Ext: renderFor(envFormat(c.Env.Ext), c.Env.Doc)}
 	}
+	if c.Entry != nil {
+		r := render(recase(c.Entry.Doc, c.Variant))
+		m := map[string]string{"json": r.JSON, "yaml": r.YAMLBlock, "toml": r.TOMLSections}
+		if c.Check == "entrycase" {
+			m = map[string]string{"json": r.JSON, "json_declared_keys": render(c.Entry.Doc).JSON}
+		}
+		return m
+	}
 	r := render(recase(c.Doc, c.Variant))
 	m := map[string]string{"json": r.JSON}
 	if c.Check == "fmt" {
@@ -97,10 +112,18 @@ func describe(c *Case, res result) string {
 	if c.Check == "env" {
 		return fmt.Sprintf("type %s, file text %q: %s", c.Env.Spec, renderFor(envFormat(c.Env.Ext), c.Env.Doc), res.Detail)
 	}
+	if c.Entry != nil {
+		et := entryTypeByName(c.Entry.Type)
+		return fmt.Sprintf("type %s (%s; Validate: see harness/C17/entry.go), %s document %s (%s keys): %s", et.T, et.Label, c.Entry.Tag,
+			renderJSON(recase(c.Entry.Doc, c.Variant)), variantNames[c.Variant], res.Detail)
+	}
 	return fmt.Sprintf("type %s, document %s (%s keys): %s", c.Spec, renderJSON(recase(c.Doc, c.Variant)), variantNames[c.Variant], res.Detail)
 }
 
 func main() {
+	if spec := os.Getenv("C17_MUSTLOAD_JOBS"); spec != "" {
+		mustLoadChild(spec) // child process of the entry family: conf.MustLoad ends the process on a rejected document
+	}
 	cfg := vlib.ParseFlags("C17", "exploration")
 	r := vlib.NewReport(cfg)
 	setEnvTable()
@@ -157,6 +180,9 @@ func main() {
 		fmt.Printf("replay class=%s\n", class)
 		if c.Check == "env" {
 			fmt.Printf("  type: %s\n", c.Env.Spec)
+		} else if c.Entry != nil {
+			et := entryTypeByName(c.Entry.Type)
+			fmt.Printf("  type: %s (%s; %s document)\n", et.T, et.Label, c.Entry.Tag)
 		} else {
 			fmt.Printf("  type: %s\n", c.Spec)
 		}
@@ -182,6 +208,9 @@ func main() {
 		defer pprof.StopCPUProfile()
 	}
 	items := append(enumerateTypes("A", cfg.Thorough()), enumerateTypes("B", cfg.Thorough())...)
+	if os.Getenv("C17_ONLY") == "entry" { // debug aid: only the entry family (the evidence is then not that of the check)
+		items = nil
+	}
 	order := make([]int, len(items))
 	for i := range order {
 		order[i] = i
@@ -256,9 +285,12 @@ func main() {
 		}
 	}
 
+	// the named types with Validate methods through every public entry point
+	entrySizes := runEntryFamily(r, co, cfg.Thorough(), len(items)+1)
+
 	os.RemoveAll(envDir)
 	pprof.StopCPUProfile()
-	for i := 0; i < len(items); i += len(items)/10 + 1 {
+	for i := 0; i < len(items) && len(items) > 0; i += len(items)/10 + 1 {
 		docs := topLevelDocs(items[i])
 		r.Sample(map[string]any{"family": items[i].Fam, "level": items[i].Level, "type": items[i].Spec.String(), "documents": len(docs),
 			"example_document": renderJSON(docs[len(docs)/2])})
@@ -285,6 +317,7 @@ func main() {
 	r.Scenario("family", describeFamily())
 	r.Scenario("value_alphabet_size", len(atoms())-1)
 	r.Scenario("env_cases", len(ecs))
+	r.Scenario("entry_family_named_types_with_Validate", entrySizes)
 	r.Count("rendered_documents_validated_by_parse_back", int(nValidated))
 	r.Assume("renderers are validated, not trusted: every distinct rendered text is parsed back with encoding/json, gopkg.in/yaml.v2 and pelletier/go-toml/v2 and compared with the document tree")
 	r.Assume("documents containing null are not representable in TOML and therefore outside the quantifier of the format-independence part: they are loaded (totality, panics counted under outside_quantifier.*) but not judged by the fmt / case oracles; the encoding/json part (JSON only) keeps them")
